@@ -56,6 +56,11 @@ pub fn all() -> Vec<(&'static str, Blueprint)> {
         ("x25_unicode_route_conflict", x25_unicode_route_conflict()),
         ("x26_self_cycle", x26_self_cycle()),
         ("x27_self_cycle_transient", x27_self_cycle_transient()),
+        ("v20_state_nested_generics", v20_state_nested_generics()),
+        ("v21_state_same_name_generics", v21_state_same_name_generics()),
+        ("v22_state_arrays", v22_state_arrays()),
+        ("v23_unions", v23_unions()),
+        ("x28_config_key_keyword", x28_config_key_keyword()),
     ]
 }
 
@@ -589,5 +594,49 @@ pub fn x27_self_cycle_transient() -> Blueprint {
     let mut bp = base();
     bp.constructor(bad::selfcycle::SC_RETRIER);
     bp.route(bad::selfcycle::SC_HANDLER_T);
+    bp
+}
+
+/// Two singletons whose types differ only in a nested generic argument (`Arc<Mutex<A>>`,
+/// `Arc<Mutex<B>>`): the fields of `ApplicationState` need distinct names.
+pub fn v20_state_nested_generics() -> Blueprint {
+    let mut bp = Blueprint::new();
+    bp.import(from![pavex, crate::shapes::state_nested_generics]);
+    bp.route(crate::shapes::state_nested_generics::NG_HANDLER);
+    bp.route(misc::PING);
+    bp
+}
+
+/// `Pool<a::Marker>` and `Pool<b::Marker>` as singletons.
+pub fn v21_state_same_name_generics() -> Blueprint {
+    let mut bp = Blueprint::new();
+    bp.import(from![pavex, crate::shapes::state_same_name_generics]);
+    bp.route(crate::shapes::state_same_name_generics::SN_HANDLER);
+    bp
+}
+
+/// `[u8; 4]`, `[u8; 8]` and `u8` as singletons.
+pub fn v22_state_arrays() -> Blueprint {
+    let mut bp = Blueprint::new();
+    bp.import(from![pavex, crate::shapes::state_arrays]);
+    bp.route(crate::shapes::state_arrays::ARR_HANDLER);
+    bp
+}
+
+/// `union` types as a singleton and as a `clone_if_necessary` request-scoped value.
+pub fn v23_unions() -> Blueprint {
+    let mut bp = Blueprint::new();
+    bp.import(from![pavex, crate::shapes::unions]);
+    bp.route(crate::shapes::unions::UN_HANDLER);
+    bp.route(crate::shapes::unions::UN_WORD_HANDLER);
+    bp
+}
+
+/// A configuration key that is a Rust keyword.
+pub fn x28_config_key_keyword() -> Blueprint {
+    let mut bp = Blueprint::new();
+    bp.import(from![pavex]);
+    bp.config(bad::keyword::KEYWORD_CONFIG);
+    bp.route(bad::keyword::NEEDS_KEYWORD_CONFIG);
     bp
 }
